@@ -109,8 +109,18 @@ func judgeHistory(h []string) (sig, detail string, ok int) {
 		if o.Kind == interp.HostPanic {
 			continue // judged by C01
 		}
+		if strings.HasPrefix(stmt, "expect") {
+			vt.Class("self-witness verdict: " + map[bool]string{true: "holds", false: "not evaluated (the chain or the comparison raised)"}[o.Kind == interp.Value && o.Obj == object.BuiltInTrue])
+		}
 		if o.Kind == interp.Value {
 			ok++
+			if cyclic(o.Obj) {
+				return "changed:value-contains-itself", fmt.Sprintf("statement %d `%s` gave a value that contains itself; only changing an existing value can build one\nhistory:\n  %s", i+1, stmt, strings.Join(h[:i+1], "\n  ")), ok
+			}
+			if strings.HasPrefix(stmt, "expect") && o.Obj == object.BuiltInFalse {
+				return "changed:while-chain-was-running", fmt.Sprintf("statement %d `%s` is false: a value recorded by the callee of the chain in the previous statement no longer matches the description taken when it was recorded\nhistory:\n  %s",
+					i+1, stmt, strings.Join(h[:i+1], "\n  ")), ok
+			}
 		}
 		if s, d := check(stmt, i); s != "" {
 			return s, d, ok
@@ -120,14 +130,101 @@ func judgeHistory(h []string) (sig, detail string, ok int) {
 }
 
 type histGen struct {
-	t     *rapid.T
-	in    *interp.Interp
-	env   *object.Env
-	vars  []string
-	kinds map[string]string // var -> coarse kind
-	hist  []string
-	sib   int
-	old   int
+	t       *rapid.T
+	in      *interp.Interp
+	env     *object.Env
+	vars    []string
+	kinds   map[string]string // var -> coarse kind
+	hist    []string
+	sib     int
+	old     int
+	defined map[string]bool
+	snaps   int
+}
+
+// snapForms: {chain that records, check that every record still describes what it recorded}.
+var snapForms = [][2]string{
+	{"(%s)$([]){|p| p[0] + [[p, p[0].len, p[1].repr]]}", "(%s@{|e| e[0][0].len == e[1] && e[0][1].repr == e[2]}).has?(false) == false"},
+	{"(%s)~$([]){|p| p[0] + [[p, p[0].len, p[1].repr]]}", "(%s@{|e| e[0][0].len == e[1] && e[0][1].repr == e[2]}).has?(false) == false"},
+	{"(%s)$([]){|a, x| [*a, [\\0, a.len, x.repr]]}", "(%s@{|e| e[0][0].len == e[1] && e[0][1].repr == e[2]}).has?(false) == false"},
+	{"(%s)@{|x| [x, x.repr, \\0, \\0.repr]}", "(%s@{|e| e[0].repr == e[1] && e[2].repr == e[3]}).has?(false) == false"},
+	{"(%s)=@{|x| [x, x.repr]}", "(%s@{|e| e[0].repr == e[1]}).has?(false) == false"},
+	{"(%s)@{|x, *r, **k| [[x, r, k], [x, r, k].repr]}(1, [2], q: {z: 3})", "(%s@{|e| e[0].repr == e[1]}).has?(false) == false"},
+	{"(%s)@{|x| [\\, \\.repr]}", "(%s@{|e| e[0].repr == e[1]}).has?(false) == false"},
+}
+
+// cyclic reports whether o contains itself through elements, pairs or bounds.
+func cyclic(o object.PanObject) bool {
+	onPath, done := map[object.PanObject]bool{}, map[object.PanObject]bool{}
+	var visit func(x object.PanObject) bool
+	visit = func(x object.PanObject) bool {
+		if x == nil || done[x] {
+			return false
+		}
+		var kids []object.PanObject
+		switch v := x.(type) {
+		case *object.PanArr:
+			kids = v.Elems
+		case *object.PanObj:
+			if v.Pairs != nil {
+				for _, p := range *v.Pairs {
+					kids = append(kids, p.Value)
+				}
+			}
+		case *object.PanMap:
+			if v.Pairs != nil {
+				for _, p := range *v.Pairs {
+					kids = append(kids, p.Key, p.Value)
+				}
+			}
+			if v.NonHashablePairs != nil {
+				for _, p := range *v.NonHashablePairs {
+					kids = append(kids, p.Key, p.Value)
+				}
+			}
+		case *object.PanRange:
+			kids = []object.PanObject{v.Start, v.Stop, v.Step}
+		default:
+			return false
+		}
+		if onPath[x] {
+			return true
+		}
+		onPath[x] = true
+		for _, k := range kids {
+			if visit(k) {
+				return true
+			}
+		}
+		delete(onPath, x)
+		done[x] = true
+		return false
+	}
+	return visit(o)
+}
+
+func isObjVal(o object.PanObject) bool { _, ok := o.(*object.PanObj); return ok }
+func isArrVal(o object.PanObject) bool { _, ok := o.(*object.PanArr); return ok }
+func isIterVal(o object.PanObject) bool {
+	switch o.(type) {
+	case *object.PanArr, *object.PanObj, *object.PanMap, *object.PanStr, *object.PanRange:
+		return true
+	}
+	return false
+}
+
+// pickKind prefers a stored value of the wanted kind (operations on values that live on are what can expose a mutation).
+func (g *histGen) pickKind(l string, want func(object.PanObject) bool) string {
+	cands := []string{}
+	for _, v := range g.vars {
+		if o, found := g.env.Get(object.GetSymHash(v)); found && want(o) {
+			cands = append(cands, v)
+		}
+	}
+	if len(cands) > 0 && g.intn(5, l+"kindvar") > 0 {
+		return cands[g.intn(len(cands), l+"kindwhich")]
+	}
+	return g.pick(l)
 }
 
 func (g *histGen) intn(n int, l string) int { return rapid.IntRange(0, n-1).Draw(g.t, l) }
@@ -156,7 +253,7 @@ func (g *histGen) step(i int) {
 	name := fmt.Sprintf("v%d", i)
 	var rhs string
 	sibling := false
-	switch k := g.intn(12, "op"); {
+	switch k := g.intn(16, "op"); {
 	case k < 2 || len(g.vars) == 0:
 		rhs = rapid.SampledFrom(append(append([]string{}, lits...), growable...)).Draw(g.t, "lit")
 	case k < 4:
@@ -174,6 +271,42 @@ func (g *histGen) step(i int) {
 			"\"#{%[1]s}-#{%[2]s}\"", "{|x: %[1]s| x}()", "(%[1]s:%[2]s)", "%[1]s.try.{|x| x + %[2]s}.or(%[1]s)"}).Draw(g.t, "form")
 		rhs = fmt.Sprintf(rhs, a, b)
 		sibling = true
+	case k < 10:
+		// calls with several */** expansions: the expanded operands are values that live on
+		a, b := g.pickKind("a", isObjVal), g.pickKind("b", isObjVal)
+		if g.intn(3, "arr") == 0 {
+			a, b = g.pickKind("a", isArrVal), g.pickKind("b", isArrVal)
+			rhs = rapid.SampledFrom([]string{"{|*a, **k| [a, k]}(*%[1]s, *%[2]s)", "{|x, *a| [x, a]}(*%[1]s, 5, *%[2]s)", "[].push(*%[1]s, *%[2]s)", "{|*a| a}(*%[1]s, *%[2]s, *%[1]s)"}).Draw(g.t, "form")
+		} else {
+			rhs = rapid.SampledFrom([]string{"{|*a, **k| [a, k]}(**%[1]s, **%[2]s)", "{|x: 0, **k| [x, k]}(**%[1]s, **%[2]s)", "{|| 1}(**%[1]s, **%[2]s, **%[1]s)", "{|*a, **k| [a, k]}(1, **%[1]s, q: 2, **%[2]s)",
+				"{}.bear(**%[1]s, **%[2]s)", "[1]@{|x, **k| k}(**%[1]s, **%[2]s)", "1.{|x, **k| k}(**%[1]s, **%[2]s)"}).Draw(g.t, "form")
+		}
+		rhs = fmt.Sprintf(rhs, a, b)
+		sibling = true
+	case k < 12:
+		// chains whose callee is a function literal or a stored function that keeps what it was handed
+		// (the receiver pair of a reduce step, the element, the argument array)
+		recv, init := g.pickKind("recv", isIterVal), g.pick("init")
+		rhs = rapid.SampledFrom([]string{"(%[1]s)$([]){|p| p[0] + [p]}", "(%[1]s)$(%[2]s){\\}", "(%[1]s)$(nil){|p| [p]}", "(%[1]s)$(%[2]s)^fkeep", "(%[1]s)~$([]){|p| p[0] + [p]}", "(%[1]s)@{\\}", "(%[1]s)@{|x| [x]}",
+			"(%[1]s)@^fkeep", "(%[1]s)$([]){|a, x| [*a, [x]]}", "(%[1]s)@{|x, i| [x, i, \\0]}(%[2]s)", "(%[1]s).{\\}", "(%[1]s).^fkeep(%[2]s)", "(%[1]s)=@{|x| [x]}", "(%[1]s)&@{|x| [x]}",
+			"(%[1]s)$(%[2]s){|a, x| [a, x]}", "(%[1]s)$(%[2]s)^fargs", "(%[1]s)@^fargs(%[2]s)"}).Draw(g.t, "form")
+		rhs = fmt.Sprintf(rhs, recv, init)
+		for _, f := range [][2]string{{"fkeep", "{|p| [p]}"}, {"fargs", "{|*a, **k| [a, k, \\0]}"}} {
+			if strings.Contains(rhs, "^"+f[0]) && !g.defined[f[0]] {
+				g.defined[f[0]] = true
+				g.emit(f[0], f[1])
+			}
+		}
+		sibling = true
+	case k < 13:
+		// self-witnessing chains: the callee stores what it was handed together with a description taken at that
+		// moment; a later statement compares (a value changed while the chain was still running is seen this way)
+		recv := g.pickKind("recv", isIterVal)
+		f := rapid.SampledFrom(snapForms).Draw(g.t, "snap")
+		g.emit(name, fmt.Sprintf(f[0], recv))
+		g.snaps++
+		g.emit("expect"+name, fmt.Sprintf(f[1], name))
+		return
 	default:
 		recv := g.pick("recv")
 		ps := g.propsFor(recv)
@@ -210,6 +343,13 @@ func (g *histGen) emit(name, rhs string) {
 	g.hist = append(g.hist, stmt)
 	o := g.in.Run(stmt, interp.Opts{Env: g.env, Budget: &interp.Budget{Steps: 20000, Depth: 200, Alloc: 1 << 16, Wall: interp.DefaultBudget.Wall}})
 	if o.Kind == interp.Value {
+		if interp.TooLargeToPrint(o.Obj) && !cyclic(o.Obj) {
+			// a value that shares sub-values exponentially cannot be printed or interpolated within any budget
+			// (that is the program's own cost, see C01); it is kept out of the history
+			g.hist = g.hist[:len(g.hist)-1]
+			vt.Class("statement dropped: its value is too large to print")
+			return
+		}
 		g.vars = append(g.vars, name)
 	}
 }
@@ -217,7 +357,7 @@ func (g *histGen) emit(name, rhs string) {
 func TestHistories(t *testing.T) {
 	vt.Check(t, vt.N(2400, 60000), func(rt *rapid.T) {
 		in := interp.Shared()
-		g := &histGen{t: rt, in: in, env: object.NewEnclosedEnv(in.Global), kinds: map[string]string{}}
+		g := &histGen{t: rt, in: in, env: object.NewEnclosedEnv(in.Global), kinds: map[string]string{}, defined: map[string]bool{}}
 		n := rapid.IntRange(4, 14).Draw(rt, "steps")
 		if vt.Thorough() {
 			n = rapid.IntRange(4, 25).Draw(rt, "steps")
@@ -228,6 +368,7 @@ func TestHistories(t *testing.T) {
 		vt.Evals(len(g.hist))
 		vt.ClassN("statements", len(g.hist))
 		vt.ClassN("sibling derivations", g.sib)
+		vt.ClassN("self-witnessing chains", g.snaps)
 		vt.ClassN("statements whose operand was created >= 2 statements earlier", g.old)
 		// the invariant is checked on a fresh replay of the history (pure function of the statement list)
 		sig, detail, ok := judgeHistory(g.hist)
